@@ -113,6 +113,12 @@ def install_value_model(E, ctx):
                 if not E.branch(is_str(o.t)):
                     E.throw('AttributeError')
                 return VStub('str.' + name, lambda E, a, k: str_split(E, name, str_of(o.t), a, k, node))
+            if name in ('strip', 'lstrip', 'rstrip', 'lower', 'upper', 'casefold', 'title', 'capitalize'):
+                if not E.branch(is_str(o.t)):
+                    E.throw('AttributeError')
+                # some string function of the text: uninterpreted (it MAY change the text)
+                fn_ = z3.Function('str_' + name, S, S)
+                return VStub('str.' + name, lambda E_, a, k: mkstr(E, fn_(str_of(o.t))))
             if name in ('find', 'index', 'rfind'):
                 if not E.branch(is_str(o.t)):
                     E.throw('AttributeError')
